@@ -19,7 +19,19 @@ from rules import extract  # noqa: E402
 ALL = ["C%02d" % i for i in range(1, 21)]
 
 
-def run(patch, worker, props):
+import queue
+WORKERS = queue.Queue()
+
+
+def run(patch, _unused, props):
+    worker = WORKERS.get()      # one target-dir suffix per concurrently running job
+    try:
+        return _run(patch, worker, props)
+    finally:
+        WORKERS.put(worker)
+
+
+def _run(patch, worker, props):
     tmp = tempfile.mkdtemp(prefix="verif-try-")
     th = None
     try:
@@ -39,7 +51,7 @@ def run(patch, worker, props):
                 return patch, "nobuild", r.stdout[-800:], {}
             if r.returncode != 0:
                 status = "reported"
-                hits[p] = re.findall(r"rule (\S+)\s+function (.*?)\s+instance (\S+)\s+configs=(\S+)\n\s+(.*)", r.stdout)
+                hits[p] = re.findall(r"rule (\S+)\s+function (.*?)\s+instance (.*?)\s+configs=(\S+)\n\s+(.*)", r.stdout)
         return patch, status, "", hits
     finally:
         shutil.rmtree(tmp, ignore_errors=True)
@@ -55,6 +67,8 @@ def main():
     a = ap.parse_args()
     props = a.props.split(",") if a.props else ALL
     rc = 0
+    for i in range(a.j):
+        WORKERS.put(i)
     with concurrent.futures.ThreadPoolExecutor(max_workers=a.j) as ex:
         futs = [ex.submit(run, p, i % a.j, props) for i, p in enumerate(a.patches)]
         for f in futs:
